@@ -96,3 +96,8 @@ CHECKS["C09"] = _resmgr("C09",
     "'stop and remove everything' on the same real instance and compared with the pristine state of a fresh instance with the effective configuration; per request: stopped/removed containers hold nothing; "
     "non-trivial = states with at least two live containers",
     "12 scenarios, depth 5 (+ drain suffix per state)", "16 scenarios, depth 6 (+ drain suffix per state)")
+CHECKS["C02"] = _resmgr("C02",
+    "explicit-state BFS over create/stop/remove/synchronize/reconfigure histories on a real balloons resource manager per configuration scenario; oracle after every request from zones, cache/told cpusets, "
+    "the cached CPU class assignment and the balloon snapshot: disjoint balloons inside the available set, exactly-one membership, container cpuset = balloon + shared idle (one thread per core when hidden), "
+    "shared idle set exact for the sharing scope, min/max CPUs and instances, balloon size >= requests, CPU classes; non-trivial = states with at least two live containers",
+    "4 configuration scenarios, depth 5", "6 configuration scenarios, depth 6")
